@@ -19,6 +19,7 @@ use std::time::{Duration, Instant};
 
 pub mod rtp;
 pub mod ice;
+pub mod dtls;
 
 // ---------------------------------------------------------------------------------------------
 // counting allocator
@@ -220,6 +221,7 @@ pub fn all_targets() -> Vec<Target> {
     let mut v = vec![];
     v.extend(rtp::targets());
     v.extend(ice::targets());
+    v.extend(dtls::targets());
     v
 }
 
